@@ -154,8 +154,10 @@ func (svg *SVGImage) drawNode(dst backend.Canvas, node *svgNode, dims drawingDim
 		if isText && text.isText {
 			textAnchor = text.textAnchor
 			if len(node.children) != 0 && text.text == "" {
-				child, _ := node.children[0].graphicContent.(*textSpan)
-				textAnchor = child.textAnchor
+				// the first child may be a shape or a group: it has no anchor of its own
+				if child, ok := node.children[0].graphicContent.(*textSpan); ok {
+					textAnchor = child.textAnchor
+				}
 			}
 
 			if textAnchor == middle || textAnchor == end {
